@@ -345,6 +345,21 @@ class Skip(Exception):
     pass
 
 
+def _need(cond):
+    """Precondition of an API call (argument kinds / matching dimensions); inadmissible records are skipped, because
+    a call outside the documented argument types says nothing about the property."""
+    if not cond:
+        raise Skip()
+
+
+def _vec(t, dims=None):
+    return all(c == 1 for c in t.col_dims) and t.ranks[0] == 1 and t.ranks[-1] == 1 and (dims is None or list(t.row_dims) == list(dims))
+
+
+def _sqop(t):
+    return list(t.row_dims) == list(t.col_dims) and t.ranks[0] == 1 and t.ranks[-1] == 1
+
+
 def api_name(rec):
     """Name of the API entry point a record exercises (signatures name the API, not the harness op)."""
     name = rec["op"]
@@ -425,7 +440,14 @@ class Ctx(object):
         self.rnd = rnd
         self.run = run
         self.cfg = cfg
-        self.history = []     # records issued so far (for repeated calls)
+        self.history = []     # (record, serials of its input objects) issued so far (for repeated calls)
+
+    def serials(self, rec):
+        out = []
+        for r, j in sorted((rec.get("in") or {}).items()):
+            for jj in (j if isinstance(j, list) else [j]):
+                out.append(self.run.slots[jj].serial if self.run.slots[jj] is not None else None)
+        return out
 
     def live(self):
         return self.run.live()
@@ -814,8 +836,7 @@ def _svd():
     def execute(run, rec, A, g):
         a = rec["args"]
         t = A["self"]
-        if not (1 <= a["index"] <= t.order - 1):
-            raise Skip()
+        _need(all(c == 1 for c in t.col_dims) and 1 <= a["index"] <= t.order - 1)
         return t.svd(a["index"], threshold=a.get("threshold", 0), max_rank=_mr(a.get("max_rank")),
                      ortho_l=a.get("ortho_l", True), ortho_r=a.get("ortho_r", True), overwrite=bool(a.get("overwrite")))
     return _svd_choose("svd"), execute
@@ -826,8 +847,7 @@ def _pinv():
     def execute(run, rec, A, g):
         a = rec["args"]
         t = A["self"]
-        if not (1 <= a["index"] <= t.order - 1):
-            raise Skip()
+        _need(all(c == 1 for c in t.col_dims) and 1 <= a["index"] <= t.order - 1)
         return t.pinv(a["index"], threshold=a.get("threshold", 0), ortho_l=a.get("ortho_l", True),
                       ortho_r=a.get("ortho_r", True), overwrite=bool(a.get("overwrite")))
     return _svd_choose("pinv"), execute
@@ -875,6 +895,7 @@ def _residual():
         return {"op": "residual_error", "in": {"operator": o, "lhs": x, "rhs": b}, "dest": [], "args": {}}
 
     def execute(run, rec, A, g):
+        _need(_sqop(A["operator"]) and _vec(A["lhs"], A["operator"].row_dims) and _vec(A["rhs"], A["operator"].row_dims))
         return run.ttm.residual_error(A["operator"], A["lhs"], A["rhs"])
     return choose, execute
 
@@ -970,6 +991,7 @@ def _sle():
     def execute(run, rec, A, g):
         import scikit_tt.solvers.sle as sle
         a = rec["args"]
+        _need(_sqop(A["operator"]) and _vec(A["initial_guess"], A["operator"].row_dims) and _vec(A["right_hand_side"], A["operator"].row_dims))
         if a["which"] == "als":
             return sle.als(A["operator"], A["initial_guess"], A["right_hand_side"], repeats=a["repeats"], solver=a["solver"])
         return sle.mals(A["operator"], A["initial_guess"], A["right_hand_side"], repeats=a["repeats"], solver=a["solver"],
@@ -999,6 +1021,9 @@ def _evp():
     def execute(run, rec, A, g):
         import scikit_tt.solvers.evp as evp
         a = rec["args"]
+        _need(_sqop(A["operator"]) and _vec(A["initial_guess"], A["operator"].row_dims)
+              and all(_vec(p_, A["operator"].row_dims) for p_ in A.get("previous", []))
+              and (A.get("operator_gevp") is None or (_sqop(A["operator_gevp"]) and A["operator_gevp"].row_dims == A["operator"].row_dims)))
         return evp.als(A["operator"], A["initial_guess"], previous=list(A.get("previous", [])), shift=a.get("shift", 0),
                        operator_gevp=A.get("operator_gevp"), number_ev=a["number_ev"], repeats=a["repeats"],
                        conv_eps=a["conv_eps"], solver=a["solver"], sigma=a["sigma"], real=a["real"])
@@ -1022,6 +1047,8 @@ def _power():
     def execute(run, rec, A, g):
         import scikit_tt.solvers.evp as evp
         a = rec["args"]
+        _need(_sqop(A["operator"]) and _vec(A["initial_guess"], A["operator"].row_dims)
+              and (A.get("operator_gevp") is None or (_sqop(A["operator_gevp"]) and A["operator_gevp"].row_dims == A["operator"].row_dims)))
         return evp.power_method(A["operator"], A["initial_guess"], operator_gevp=A.get("operator_gevp"), repeats=a["repeats"], sigma=a["sigma"])
     return choose, execute
 
@@ -1073,6 +1100,10 @@ def _ode_onestep():
         import scikit_tt.solvers.ode as ode
         a = rec["args"]
         w = a["which"]
+        dims = A["operator"].row_dims
+        _need(_sqop(A["operator"]) and _vec(A["initial_value"], dims) and all(
+            A.get(k_) is None or _vec(A[k_], dims) for k_ in ("initial_guess", "previous_value")) and (
+            A.get("op_hod") is None or (_sqop(A["op_hod"]) and A["op_hod"].row_dims == dims)))
         if w == "explicit_euler":
             return ode.explicit_euler(A["operator"], A["initial_value"], a["step_sizes"], threshold=a["threshold"],
                                       max_rank=a["max_rank"], normalize=a["normalize"], progress=a["progress"])
@@ -1110,6 +1141,7 @@ def _ode_errors():
 
     def execute(run, rec, A, g):
         import scikit_tt.solvers.ode as ode
+        _need(_sqop(A["operator"]) and all(_vec(x_, A["operator"].row_dims) for x_ in A["solution"]))
         f = {"expl": ode.errors_expl_euler, "impl": ode.errors_impl_euler, "trap": ode.errors_trapezoidal}[rec["args"]["which"]]
         return f(A["operator"], list(A["solution"]), rec["args"]["step_sizes"])
     return choose, execute
@@ -1132,6 +1164,7 @@ def _ode_tdvp():
         import scikit_tt.solvers.ode as ode
         a = rec["args"]
         w = a["which"]
+        _need(_sqop(A["operator"]) and _vec(A["initial_value"], A["operator"].row_dims))
         if w == "tdvp1site":
             return ode.tdvp1site(A["operator"], A["initial_value"], a["step_size"], a["number_of_steps"], normalize=a["normalize"])
         if w == "tdvp2site":
@@ -1164,8 +1197,7 @@ def _ode_splitting():
         x = A["initial_value"]
         m = x.row_dims[0]
         d = x.order
-        if len(set(x.row_dims)) != 1:
-            raise Skip()
+        _need(_vec(x) and len(set(x.row_dims)) == 1 and d >= 2 and m <= 4)
 
         def mat(*shape):
             z = 0.3 * g.standard_normal(shape)
@@ -1204,8 +1236,7 @@ def _ode_tjm():
         import scikit_tt.solvers.ode as ode
         a = rec["args"]
         h, x = A["hamiltonian"], A["state"]
-        if any(v != 2 for v in h.row_dims):
-            raise Skip()
+        _need(_sqop(h) and all(v == 2 for v in h.row_dims) and _vec(x, h.row_dims))
         sm = np.array([[0.0, 1.0], [0.0, 0.0]])
         sz = np.array([[1.0, 0.0], [0.0, -1.0]])
         jl, pl = [sm, sz], [a["gamma"], 0.5 * a["gamma"]]
@@ -1233,6 +1264,7 @@ def _tdmd():
     def execute(run, rec, A, g):
         import scikit_tt.data_driven.tdmd as tdmd
         a = rec["args"]
+        _need(_vec(A["x"]) and _vec(A["y"], A["x"].row_dims) and A["x"].order >= 2)
         f = tdmd.tdmd_exact if a["which"] == "exact" else tdmd.tdmd_standard
         return f(A["x"], A["y"], threshold=a["threshold"], ortho_l=a["ortho_l"], ortho_r=a["ortho_r"])
     return choose, execute
@@ -1335,8 +1367,7 @@ def _dd_arr():
         import scikit_tt.data_driven.regression as reg
         a = rec["args"]
         t = A["initial_guess"]
-        if [len(mo) for mo in a["basis"]] != list(t.row_dims):
-            raise Skip()
+        _need(_vec(t) and [len(mo) for mo in a["basis"]] == list(t.row_dims))
         x = g.uniform(-1, 1, size=(a["d"], a["m"]))
         y = g.uniform(-1, 1, size=(a["k"], a["m"]))
         return reg.arr(x, y, _basis_list(tdt, a["basis"]), t, repeats=a["repeats"], rcond=a["rcond"], progress=a["progress"])
@@ -1585,9 +1616,10 @@ def _choose(ctx):
     if ctx.history and rnd.random() < cfg.get("repeat_p", 0.0):
         # the same call once more, with identical arguments (same sub-seed => same generated data): results of two
         # identical calls must be independent objects (caches, memoised cores, module-level state)
-        prev = rnd.choice(ctx.history)
+        prev, serials = rnd.choice(ctx.history)
         spec = OPS.get(prev["op"])
-        if spec is not None and not (spec["inplace"](prev) if callable(spec["inplace"]) else spec["inplace"]):
+        if spec is not None and not (spec["inplace"](prev) if callable(spec["inplace"]) else spec["inplace"]) \
+                and serials == ctx.serials(prev):
             rec = copy.deepcopy(prev)
             rec.pop("faults", None)
             rec["dest"] = ctx.dest(len(prev.get("dest", ())))
@@ -1625,7 +1657,7 @@ def generate_and_run(seed, faults, keep_events=False):
                     rec["clock_seed"] = rnd.getrandbits(32)
             records.append(rec)
             if rec["op"] != "new":
-                ctx.history.append(rec)
+                ctx.history.append((rec, ctx.serials(rec)))
             run.step(rec)
     except Violation as v:
         viol = v
